@@ -41,8 +41,10 @@ WRITE_POOL = (0, 1, 2, 3, -1, 7, 0.5, -2.25, 10, 'txt', 'q', '7', '', 'Abc', "'q
               None, 100, 1.5)
 
 
-def draw_write(rnd, old):
+def draw_write(rnd, old, pool=None):
     """values written by set_value, with deliberate collisions"""
+    if pool and rnd.random() < 0.75:
+        return rnd.choice(pool)      # (a cell whose meaningful values are few: a lookup key)
     roll = rnd.random()
     if roll < 0.10:
         return None
@@ -105,7 +107,7 @@ def gen_ops(rnd, spec, cfg, n_ops, restart_rate=0.05, set_rate=0.4, allow_restar
             if not dag.deps.get(a) and rnd.random() < 0.6:
                 a = rnd.choice(cand)
             old = cur.get(a, dag.cell[a].get('v'))
-            v = draw_write(rnd, old)
+            v = draw_write(rnd, old, dag.cell[a].get('w'))
             cur[a] = v
             op = {'op': 'set', 'a': a, 'v': v}
         else:
@@ -191,6 +193,8 @@ def gen_case(rnd, tier, index):
         wbgen.add_numpy_gadget(rnd, spec)     # cells that hold numpy scalars
     if rnd.random() < 0.04:
         wbgen.add_big_range_gadget(rnd, spec)     # a range of > 1000 cells, nearly all blank
+    if rnd.random() < 0.08:
+        wbgen.add_lookup_gadget(rnd, spec)        # whole-column lookups, look-alike tables
     cfg = draw_cfg(rnd, spec, tier)
     if cfg.get('origin') != 'xlsx' and rnd.random() < 0.12:
         wbgen.add_table_gadget(rnd, spec)     # structured references
